@@ -240,12 +240,15 @@ type c19Case struct {
 	class     string
 	L, col    int
 	D         int
-	kind      string // "normal" or the degraded kind
-	allowNone bool   // a message without excerpt is the acceptable outcome (degraded input)
-	omitFrom  int    // rows numbered >= omitFrom may be absent (neighbour the line reader cannot return); 0 = none
-	midRune   bool   // the column points into the middle of a rune: "character at the column" undefined
-	line      string // the diagnostic line as served ("" when it does not exist)
-	special   bool   // the diagnostic line contains a tab or a multi-byte character
+	kind      string    // "normal" or the degraded kind
+	allowNone bool      // a message without excerpt is the acceptable outcome (degraded input)
+	omitFrom  int       // rows numbered >= omitFrom may be absent (neighbour the line reader cannot return); 0 = none
+	midRune   bool      // the column points into the middle of a rune: "character at the column" undefined
+	line      string    // the diagnostic line as served ("" when it does not exist)
+	special   bool      // the diagnostic line contains a tab or a multi-byte character
+	pos       token.Pos // when set: the position to report (otherwise line D, column col of f)
+	noColumn  string    // non-empty: why containment and caret are not judged (column unknown / outside the named line)
+	note      string    // free text carried into samples and counterexamples
 }
 
 func (w *c19Worker) call(rep *reporting.Reporter, pos token.Pos) (msg string, n int, posOK bool, pv any) {
@@ -554,6 +557,10 @@ func (w *c19Worker) judge(c *c19Case, msg string) (outcome string, fails []c19Fa
 			caretOut = "midrune"
 			continue
 		}
+		if c.noColumn != "" {
+			caretOut = c.noColumn
+			continue
+		}
 		// clause 1: the fragment contains the byte at the column (the last byte for column L+1)
 		L := len(src)
 		pos0 := c.col - 1
@@ -675,7 +682,10 @@ func c19Clip(s string) string {
 // eval runs one case on the implementation, judges it, records the state and reports failures.
 func (w *c19Worker) eval(rep *reporting.Reporter, pass *analysis.Pass, c *c19Case) {
 	f := c.f
-	pos := f.tf.LineStart(c.D) + token.Pos(c.col-1)
+	pos := c.pos
+	if pos == token.NoPos {
+		pos = f.tf.LineStart(c.D) + token.Pos(c.col-1)
+	}
 	msg, n, posOK, pv := w.call(rep, pos)
 	var fails []c19Fail
 	outcome := ""
@@ -701,10 +711,10 @@ func (w *c19Worker) eval(rep *reporting.Reporter, pass *analysis.Pass, c *c19Cas
 	w.run.State(1, c.kind+"|"+outcome, nt)
 	w.counts["cases_"+c.kind]++
 	if len(fails) == 0 {
-		if w.nSamp[c.kind] < 1 && (c.kind != "normal" || c.L > c19Limit && c.col > c19Limit && c.class != "ascii" && c.f.layout.name == "middle") {
+		if w.nSamp[c.kind] < 1 && c.kind != "empty-file" && c.kind != "short-file" && c.kind != "adjusted-unserved-file" && (c.kind != "normal" || c.L > c19Limit && c.col > c19Limit && c.class != "ascii" && c.f.layout.name == "middle") {
 			w.nSamp[c.kind]++
 			w.run.Sample(map[string]any{"kind": c.kind, "class": c.class, "L": c.L, "column": c.col, "layout": f.layout.name,
-				"diagnostic_line_number": c.D, "neighbour_variant": f.variant, "outcome": outcome, "message": msg})
+				"diagnostic_line_number": c.D, "neighbour_variant": f.variant, "outcome": outcome, "message": msg, "note": c.note})
 		}
 		return
 	}
@@ -721,7 +731,7 @@ func (w *c19Worker) eval(rep *reporting.Reporter, pass *analysis.Pass, c *c19Cas
 			Detail: map[string]any{
 				"class": c.class, "L": c.L, "column": c.col, "layout": f.layout.name, "diagnostic_line_number": c.D,
 				"file_lines": len(f.truth), "neighbour_variant": f.variant, "kind": c.kind, "message": msg, "replayed_identically": same,
-				"diagnostic_line": c19ClipLong(c.line), "outcome": outcome,
+				"diagnostic_line": c19ClipLong(c.line), "outcome": outcome, "note": c.note,
 				"how_to_replay": "reporting.NewReporter(pass,nil).ReportViolation at (line,column) of a file whose line has the given content; see /verif/mc/internal/checks/c19.go",
 			},
 		})
@@ -947,11 +957,13 @@ func C19(tier common.Tier) int {
 			"A case is non-trivial when the diagnostic line is longer than the display limit (needs truncation) or contains tabs or multi-byte characters, or when the input is degraded; "+
 			"distinct = distinct (class, L, column) for regular inputs (layout and neighbour variant are not counted as distinct), distinct (kind, file, line, column) for degraded ones.",
 		bound+" x all byte columns 1..L+1 x classes {ascii, tabfront, tabmid, mbfront, mbcut} x layouts {only 1/1, first 1/4, second 2/5, middle 10/12, last 100/100} x 3 neighbour-length rotations of {0,50,400} "+
-			"(variant 1 also drops the final newline); plus degraded inputs: unreadable file, empty file, file of n=1..6 lines with the diagnostic on line n+1..n+4, a 70000-byte line at 5 places with diagnostics on and around it")
+			"(variant 1 also drops the final newline); plus degraded inputs: unreadable file, empty file, file of n=1..6 lines with the diagnostic on line n+1..n+4, a 70000-byte line at 5 places with diagnostics on and around it; "+
+			"plus position-adjusted diagnostics (token.File.AddLineColumnInfo as go/scanner records //line directives): named file {another served file with its own position-coded lines, a name ReadFile does not serve, the same file} "+
+			"x named line {first, second, inner, last, one past the end, far past the end} x form {//line f:L (column unknown), //line f:L:1, /*line f:L:C*/ inside the line with C in {1,100}} x diagnostic on the directive's line or the next x 16 columns covering head/middle/tail regimes of 0/30/450-byte named lines")
 	run.Assume(
 		"display limit = 200 bytes (reporting.MaxLineLength at the time of writing); ellipsis marker = \"...\"; source lines contain no '.'",
 		"terminal model: tab stops every 8 cells counted from the start of the output line, every generated rune is one cell wide (ASCII and U+00E9), an invalid byte left by a cut is one cell",
-		"columns are go/token byte columns; go/token is trusted",
+		"columns are go/token byte columns; go/token is trusted, including FileSet.Position for //line-adjusted positions: the file, line and column 'the diagnostic names' are Position(pos).Filename/Line/Column, as every driver prints them",
 		"excerpt window = 2 lines before and 1 after the diagnostic line, clamped to the file (reporter.go: readSourceLines(..., 2, 1))")
 	run.NotJudged(
 		"columns that point into the middle of a multi-byte character (never produced by go/token for a token start): containment and caret not judged, frame/rows/length are",
@@ -959,7 +971,8 @@ func C19(tier common.Tier) int {
 		"a cut that splits a two-byte rune (also the rune at the reported column): counted in coverage.extra (rune_split_*), not judged - the statement speaks of bytes/characters shown, not of well-formed UTF-8 at the cut",
 		"a neighbour line that bufio.Scanner cannot return (70000 bytes): the rows from that line on may be absent",
 		"a line of 201..206 bytes shown in full would be accepted (within the limit plus markers)",
-		"a leading/trailing ellipsis where nothing was omitted on that side is accepted")
+		"a leading/trailing ellipsis where nothing was omitted on that side is accepted",
+		"position-adjusted diagnostics whose column go/token reports as 0 (//line f:L without column) or beyond the end of the named line (the physical column applied to a shorter named line): containment and caret not judged; which file, which rows, fragments and length are")
 	if reporting.MaxLineLength != c19Limit {
 		run.Assume(fmt.Sprintf("NOTE: reporting.MaxLineLength is now %d; the oracle keeps the statement's 200", reporting.MaxLineLength))
 	}
@@ -974,6 +987,7 @@ func C19(tier common.Tier) int {
 		}
 		if sh.I == 0 {
 			w.degraded()
+			w.adjusted()
 		}
 		w.flush()
 	})
